@@ -47,6 +47,10 @@ CLAIMED["C03"] = ("Partial deductive proof of the structural part: a ghost node 
          "Trusted: gvc, SMT solvers. Assumed: compare is a pure total function. Not covered (evidence not_covered_clauses): the closed-form depth bound 1+floor(log8((n+1)/2)) (it follows on paper from the proved occupancy and balance; the count of keys per level is not mechanised), Len == number of stored keys (t.size is not linked to a ghost count of keys), 'exactly one search path' (needs the ordering invariant of C01, not proved).",
          "4.3", CLAIMED["C06"][3])
 
+CLAIMED["C02"] = ("Partial deductive proof of the safety and lost-detection part: a cursor invariant curOK (parked in a live or a dead node; if the tree's generation is the one the cursor saw, its slot still holds its key) is established by every seek, preserved by Put and Delete for every cursor of the tree (ghost clients; Put/Delete are proved to either leave generation, node population, occupancies and keys unchanged or to advance the generation, and every node that leaves the tree keeps n == 0 for ever: ghost set `dead`), and is all that cursor.Next/Prev, lost, refind, the Seek* family and forward/backwardIterator.Next require; under it these functions never panic (every index, nil and type-assertion obligation), an exhausted iterator stays exhausted, and every pair an iterator yields sits in a live node slot at that moment with the value read from the same slot; Range/RangeReverse hand out iterators satisfying the invariant for all nine bound-kind pairs.",
+         "Trusted: gvc, SMT solvers. Assumed: compare is pure and reflexive; single goroutine. Not covered (evidence not_covered_clauses): strict monotonicity, staying inside the bounds, 'no key that stays is skipped' and 'a key inserted beyond the position is yielded' - all four need the key-ordering invariant of C01, which is not under contract; termination ('never spins') is not proved (partial correctness only).",
+         "4.2", CLAIMED["C06"][3])
+
 NOT_APPLICABLE = {
  "C10": "stream.Pipe: every clause is quantified over goroutine interleavings and the runtime's choice among ready select arms; a sequential contract verifier has no model of several goroutines sharing channels (DESIGN.md section 6).",
  "C11": "stream.Batch: three goroutines, a timer and an unbuffered hand-over; partition, max-wait and 'Close always returns' are schedule and liveness statements, not expressible as per-call contracts (DESIGN.md section 6).",
